@@ -419,6 +419,7 @@ package gldap
 //@   shapes WithResponseCode
 //@   requires reqOK(r)
 //@   ensures  result != nil && fresh(result) && result.baseResponse != nil && fresh(result.baseResponse) && result.messageID == msgID(r.message)
+//@   ensures  len(result.controls) == 0
 //@   ensures  result.code == int16(cond(has_WithResponseCode, arg_WithResponseCode, 0)) && result.diagMessage == "" && result.matchedDN == ""
 //@   panics false
 //@   modifies nothing
@@ -1120,6 +1121,7 @@ package gldap
 //@   ensures  !held(rw.writerMu) && unchanged(G_held) && unchanged(G_rheld)
 //@   ensures  result == nil ==> G_nframes[rw.writerMu] == G_acq[rw.writerMu] + 1 && G_npend[rw.writer] == 0 && !G_werr[rw.writer]
 //@   ensures  isNilIface(r) ==> result != nil
+//@   ensures  (result != nil && !isNilIface(r) ==> G_werr[rw.writer]) && (old(G_werr[rw.writer]) ==> result != nil)
 //@   ensures[C05,C15] unchangedExcept("G_npend, G_pendstr, G_werr", rw.writer)
 //@   sets     G_lastok[rw.writerMu] = (result == nil)
 //@   sets     G_lasttag[rw.writerMu] = respTag(r) when result == nil
